@@ -207,9 +207,23 @@ func execC14(x *Ctx, sc *wire.Scenario) *wire.Result {
 	} else {
 		last = len(sc.Script)
 	}
+	// the completion under test ends when its candidate is accepted (the menu closes with the
+	// candidate in the line) or when a key moves the cursor with no menu open: whatever follows
+	// is another completion, of another word
+	endedAt := -1
+	for i := xx.Setup + 1; i <= last && i <= len(sc.Script); i++ {
+		w := waitAfter(out, i)
+		if w == nil || w.Kind != "main" {
+			continue
+		}
+		if w.Local != "menu-select" && (w.Line != xx.B || w.Pos != xx.C) {
+			endedAt = i
+			break
+		}
+	}
 	if len(out.Returns) > 0 {
 		// Ctrl-C only has to keep the call alive when it interrupts an ACTIVE menu
-		if before := waitAfter(out, xx.Abort); xx.Abort >= 0 && before != nil && before.Local == "menu-select" && before.Line != xx.B && everInMenuSince(out, xx.Setup, xx.Abort) {
+		if before := waitAfter(out, xx.Abort); xx.Abort >= 0 && endedAt < 0 && before != nil && before.Local == "menu-select" && before.Line != xx.B && everInMenuSince(out, xx.Setup, xx.Abort) {
 			return violation(res, "MISMATCH", "C14.interrupt-restores", "abort-in-active-menu-returns",
 				fmt.Sprintf("Ctrl-C in an active menu (showing %q) made Readline return %+v", before.Line, out.Returns[0]))
 		}
@@ -222,6 +236,9 @@ func execC14(x *Ctx, sc *wire.Scenario) *wire.Result {
 		}
 		line := w.Line
 		if line == xx.B {
+			if w.Local != "menu-select" && w.Pos != xx.C {
+				break // the cursor was moved with no menu open: not this completion any more
+			}
 			continue // nothing inserted (menu shown only, or no match)
 		}
 		if w.Local != "menu-select" {
@@ -257,7 +274,7 @@ func execC14(x *Ctx, sc *wire.Scenario) *wire.Result {
 		}
 	}
 	// (3) interrupt restores
-	if xx.Abort >= 0 && !closed {
+	if xx.Abort >= 0 && !closed && (endedAt < 0 || endedAt > xx.Abort) {
 		before := waitAfter(out, xx.Abort)
 		after := waitAfter(out, xx.Abort+1)
 		if before != nil && after != nil && before.Local == "menu-select" && before.Line != xx.B {
